@@ -94,6 +94,21 @@ CHECKS = {
               "one count row ungrouped; library error => error; never Panic. Tied to the code through database/sql with DSN options "
               "{-, preload, lrucache+size, both, invalid size}: Columns, ColumnTypes and every scanned row compared."),
         design="5/C12", technique="Coq proof (characterisation of rows_of / statement path) + " + T_DIFF),
+    "C13": dict(
+        text=("Theorems (Props/C13.v): serve returns Ok rs iff every member succeeds, and then rs has one result per query in order, each "
+              "carrying the query's id (position+1 when 0) and the library's count and groups; any invalid member makes the whole call Err "
+              "(never a partial response); conversion is lossless both ways; the grpc statement path yields the same rows as the file path. "
+              "Tied to the code by the real `updog server` (cache on/off x preload on/off) on a loopback port: batches of 0..12 queries with "
+              "explicit/zero/negative/duplicate ids and invalid members compared in full with the model; database/sql grpc:// vs file:. "
+              "Partial: transport and protobuf are trusted; non-UTF-8 strings cannot cross gRPC (known finding)."),
+        design="5/C13", technique="Coq proof (characterisation of the batch handler, lossless conversion) + " + T_DIFF + " against the real server process"),
+    "C14": dict(
+        text=("Theorems (Props/C14.v): for every wire tree with any omission (unset oneof, Not without operand, empty/unset And/Or members, "
+              "no expression) serve never panics or hangs; a request is an error exactly when a member has no expression, a hole, or is "
+              "rejected by the library; later requests are unaffected. Tied to the code by systematic omission at every position of valid "
+              "trees, deep nesting and bad members inside batches, run in-process under recover and against the real server process, which "
+              "must be alive and answering at the end; every answer compared with the model."),
+        design="5/C14", technique="Coq proof (totality / error characterisation over wire trees with omissions) + " + T_DIFF + " + liveness monitor on the server process"),
     "C15": dict(
         text=("Theorems (Props/C15.v): a failed open leaves content and locks unchanged, a missing path stays missing, no panic/hang without a "
               "writer, close releases and is idempotent, and for every open/close sequence the lock is held iff a live handle exists and the "
@@ -114,6 +129,22 @@ CHECKS = {
               "operation list. Tied to the code by random well-formed histories vs the extracted state machine (fresh process each), "
               "database/sql scenarios with pools 1..4, 16 goroutines' first use, lock probes. Partial: database/sql's pool policy is trusted."),
         design="5/C17", technique="Coq proof (state-machine invariant with exact counting; lockset soundness) + source-to-skeleton translator + " + T_DIFF),
+    "C18": dict(
+        text=("Theorems: (Props/C18.v, AddRowConc.v) for every schedule of any number of threads executing AddRow as micro-steps under a mutex, "
+              "the final writer state is the sequential insertion in lock-acquisition order, the k-th acquiring call returned id k, ids are a "
+              "permutation of 0..n-1, no row is lost or duplicated (both writers); without the mutex or with the increment after the unlock a "
+              "duplicate id is computed. (ObC18.v + Conc.v) the AddRow skeletons regenerated from the source keep every access to writer state "
+              "inside one exclusive section of the writer mutex, hence race freedom and atomicity. Tied to the code by 2..32 goroutines adding "
+              "tagged rows under -race: ids a permutation, flushed index equal to the model's index of the rows in id order."),
+        design="5/C18", technique="Coq proof (invariant over micro-step interleavings; lockset soundness) + source-to-skeleton translator + race-detector stress + " + T_DIFF),
+    "C19": dict(
+        text=("Theorems (Props/C19.v): header normalisation maps every code point to a-z or '_' (one byte per rune); record i is row i with field "
+              "j under header column j; normal and --big modes give the same result; existing output or malformed CSV => error; the created "
+              "index answers every query like a row scan over the ingested records. Tied to the code by the built binary on CSVs written by "
+              "encoding/csv (hostile fields and headers, 0..1500 records) in both modes: exit status, second run on the existing output "
+              "(hash unchanged), created index vs the model's index, malformed files, and header normalisation vs normalize_rune (sampled; all "
+              "code points in thorough)."),
+        design="5/C19", technique="Coq proof (ingest characterisation, corollary of C01/C02/C05) + " + T_DIFF + " on the built binary"),
 }
 
 PENDING = {}
